@@ -327,6 +327,9 @@ class Run:
         for kid, (k, n) in sorted(self.known_hits.items()):
             print("KNOWN-FINDING: property=%s %s [%s, %d occurrence(s) this run]" % (self.prop, k["what"], kid, n), flush=True)
         self.cov["distinct_nontrivial"] = len(self.distinct)
+        if self.cov.get("states", 0) == 0:      # no model pass in this run: the generic counts are the evidence
+            self.cov.pop("states", None)
+            self.cov.pop("transitions", None)
         if extra_cov:
             self.cov.update(extra_cov)
         self.cov["known_finding_occurrences"] = {kid: n for kid, (k, n) in self.known_hits.items()}
